@@ -3,9 +3,9 @@ package main
 // Statements, control flow, loops.
 
 import (
-	"go/printer"
 	"fmt"
 	"go/ast"
+	"go/printer"
 	"go/token"
 	"go/types"
 	"math/big"
@@ -878,7 +878,7 @@ func (c *Ctx) havocVal(name string, v Val, t types.Type, st *State) Val {
 		c.assume(c.leIdx(ln, cp))
 		off := c.fresh(name+"_off", c.idx())
 		c.assume(c.lenBounds(off))
-		n := SliceV{Region: x.Region, Off: off, Len: ln, Cap: cp, Nil: c.freshRaw(name+"_nil", "Bool"), Prov: x.Prov, IsStr: x.IsStr}
+		n := SliceV{Region: x.Region, Off: off, Len: ln, Cap: cp, Nil: c.freshRaw(name+"_nil", "Bool"), Prov: c.openProv(x.Prov), IsStr: x.IsStr}
 		if x.Region == "" {
 			n.Arr = c.freshRaw(name+"_arr", c.byteArrSort())
 		}
@@ -1113,6 +1113,7 @@ func (c *Ctx) execFor(x *ast.ForStmt, st *State) Flow {
 			continue
 		}
 		c.addObl(Obl{Name: key + "/loop.preserve", Kind: "loop.preserve", Guard: back.guard, Goal: c.evalInv(ls, back, "", x.Pos()), Pos: c.pos(x.Pos()), Text: "loop invariant preserved"})
+		c.carryProv(h, back)
 		if ls.BodyObl != nil {
 			ls.BodyObl(c, before, back, "")
 		}
@@ -1301,11 +1302,14 @@ func (c *Ctx) execRange(x *ast.RangeStmt, st *State) Flow {
 	}
 	rbefore := body.clone()
 	f := c.exec(x.Body, body)
+	var backs []*State
 	for _, back := range append(f.nexts(), f.cont...) {
 		if back == nil || back.guard == "false" {
 			continue
 		}
 		c.addObl(Obl{Name: key + "/loop.preserve", Kind: "loop.preserve", Guard: back.guard, Goal: c.evalInv(ls, back, c.addIdx(j, c.ilit(1)), x.Pos()), Pos: c.pos(x.Pos()), Text: "loop invariant preserved"})
+		c.carryProv(h, back)
+		backs = append(backs, back)
 		if ls.BodyObl != nil {
 			ls.BodyObl(c, rbefore, back, j)
 		}
@@ -1314,6 +1318,9 @@ func (c *Ctx) execRange(x *ast.RangeStmt, st *State) Flow {
 		}
 	}
 	e2 := c.havoc(st, m)
+	for _, back := range backs {
+		c.carryProv(e2, back)
+	}
 	if ls.AxFn != nil {
 		ls.AxFn(c, e2, ln)
 	}
@@ -1346,8 +1353,77 @@ func (c *Ctx) noteElemStore(st *State, container string, v Val, pos string, what
 	case PtrV:
 		c.nilElemStores = append(c.nilElemStores, ElemStore{Field: strings.TrimPrefix(container, "x."), Ref: x.Ref, Guard: st.guard, Pos: pos, What: what})
 	case SliceV:
-		if x.Prov == "input" || x.Prov == "mixed" {
+		if p := x.Prov; p == "input" || p == "mixed" || strings.HasPrefix(p, "join:") {
 			c.aliasStores = append(c.aliasStores, StoreRec{Key: container, Guard: st.guard, Prov: x.Prov, Pos: pos})
 		}
 	}
+}
+
+// ---------- provenance of values that flow round a loop or through a merge ----------
+//
+// A slice variable assigned in a loop body is havocked at the loop head; its provenance there is the join of the
+// provenance it had on entry and of what every back edge carries.  The back edges are only known after the body
+// has been executed, so the head value gets a symbolic provenance "join:N" whose contributions are filled in later
+// and which is resolved when the obligations are generated.
+
+func (c *Ctx) openProv(ps ...string) string {
+	if c.provJoin == nil {
+		c.provJoin = map[string][]string{}
+	}
+	id := fmt.Sprintf("join:%d", len(c.provJoin)+1)
+	c.provJoin[id] = append([]string{}, ps...)
+	return id
+}
+
+// carryProv: what the variables hold at a back edge flows into the loop-head provenance of the same variables
+func (c *Ctx) carryProv(head, back *State) {
+	for o, hv := range head.env {
+		hs, ok := hv.(SliceV)
+		if !ok || !strings.HasPrefix(hs.Prov, "join:") {
+			continue
+		}
+		if bs, ok := back.env[o].(SliceV); ok && bs.Prov != hs.Prov {
+			c.provJoin[hs.Prov] = append(c.provJoin[hs.Prov], bs.Prov)
+		}
+	}
+}
+
+// resolveProv: "input" as soon as one contribution may be the input; the common value when all agree (constants
+// and fresh memory count as fresh); "mixed" otherwise
+func (c *Ctx) resolveProv(p string) string {
+	seen := map[string]bool{}
+	var leaves []string
+	var walk func(q string)
+	walk = func(q string) {
+		if !strings.HasPrefix(q, "join:") {
+			leaves = append(leaves, q)
+			return
+		}
+		if seen[q] {
+			return
+		}
+		seen[q] = true
+		for _, r := range c.provJoin[q] {
+			walk(r)
+		}
+	}
+	walk(p)
+	res := ""
+	for _, l := range leaves {
+		if l == "input" || l == "mixed" {
+			return "input"
+		}
+		if l == "const" || l == "" {
+			l = "fresh"
+		}
+		if res == "" {
+			res = l
+		} else if res != l {
+			res = "mixed"
+		}
+	}
+	if res == "" {
+		res = "fresh"
+	}
+	return res
 }
